@@ -12,6 +12,11 @@ package main
 //   turbotunnel sweep <T ms> mass <n>     one connection, n clients seen at once and never again (see runSweepMass)
 //   turbotunnel sweep <T ms> keep <n>     a client is seen every T/4 for 3T with one packet queued;
 //        answers ok | replaced | lost | closed
+//   turbotunnel sweep <T ms> keepw <n>    the queue is fetched ONCE (OutgoingQueue at t0); from then on the client is seen
+//        only by being written to (WriteTo every T/8 for 2T, nobody fetches the queue: the client is between two carriers).
+//        The queue handed out at t0 must still be the client's, open, and hold the accepted packets in order.
+//        answers <verdict>:<largest time between two consecutive touches, us>:<packets found in order>/<written>
+//        verdict = ok | closed | replaced | lost   (judged only when the largest gap stayed below the timeout)
 
 import (
 	"strconv"
@@ -154,6 +159,64 @@ func runSweep(args []string) string {
 				default:
 					res[i] = "lost"
 				}
+			case "keepw":
+				before := time.Now()
+				ch := conn.OutgoingQueue(a)
+				last := before // just before the latest touch began
+				var maxgap time.Duration
+				written := 0
+				for time.Since(before) < 2*T && written < 1000 {
+					time.Sleep(T / 8)
+					p := []byte{0x57, byte(i), byte(written), byte(written >> 8)}
+					t := time.Now()
+					n, err := conn.WriteTo(p, a)
+					done := time.Now()
+					scribble(p)
+					if err != nil || n != 4 {
+						res[i] = "!writeto"
+						return
+					}
+					if g := done.Sub(last); g > maxgap { // from before the previous touch to after this one
+						maxgap = g
+					}
+					last = t
+					written++
+				}
+				verdict, inorder := "ok", 0
+			drain:
+				for inorder < written {
+					select {
+					case q, ok := <-ch:
+						if !ok {
+							verdict = "closed"
+							break drain
+						}
+						if len(q) != 4 || q[0] != 0x57 || q[1] != byte(i) || q[2] != byte(inorder) || q[3] != byte(inorder>>8) {
+							verdict = "lost"
+							break drain
+						}
+						inorder++
+					default:
+						verdict = "lost"
+						break drain
+					}
+				}
+				if verdict == "ok" {
+					// the client's queue is still the one handed out at t0
+					p := []byte{0x58}
+					conn.WriteTo(p, a)
+					select {
+					case q, ok := <-ch:
+						if !ok {
+							verdict = "closed"
+						} else if len(q) != 1 || q[0] != 0x58 {
+							verdict = "lost"
+						}
+					default:
+						verdict = "replaced"
+					}
+				}
+				res[i] = verdict + ":" + strconv.FormatInt(maxgap.Microseconds(), 10) + ":" + strconv.Itoa(inorder) + "/" + strconv.Itoa(written)
 			default:
 				res[i] = "!badop"
 			}
